@@ -149,7 +149,11 @@ fn random_op(rng: &mut Rng, p: &mut PDB) -> (Sx, Sx) {
     path[4] = rng.index_near(na, 10);
     let par = rng.chance(1, 2);
     let full = &snap::atom;
-    let kind = rng.below(16);
+    // removals by identifier twice as often as the other kinds
+    let kind = match rng.below(18) {
+        16 | 17 => 6,
+        k => k,
+    };
     macro_rules! on {
         ($getter:ident, $n:expr, |$x:ident| $body:expr) => {
             match $getter(p, &path) {
@@ -310,19 +314,59 @@ fn random_op(rng: &mut Rng, p: &mut PDB) -> (Sx, Sx) {
                     (call("rm_model_serial", vec![z(n as i128), b(par)]), b(r))
                 }
                 1 => {
-                    let id = *rng.pick(&["A", "B", "C", "Q"]);
+                    // mostly the id of an existing chain, or that id in the other case
+                    let existing = p.model(path[0]).and_then(|m| m.chain(path[1])).map(|c| c.id().to_string());
+                    let chosen: String = match existing {
+                        Some(e) if rng.chance(3, 4) => {
+                            if rng.chance(1, 3) {
+                                if e.chars().any(|c| c.is_ascii_lowercase()) { e.to_ascii_uppercase() } else { e.to_ascii_lowercase() }
+                            } else {
+                                e
+                            }
+                        }
+                        _ => (*rng.pick(&["A", "B", "C", "Q"])).to_string(),
+                    };
+                    let id = chosen.as_str();
                     let ret = on!(get_model, 1, |m| b(if par { m.par_remove_chain_by_id(id) } else { m.remove_chain_by_id(id) }));
                     (call("rm_chain_id", vec![path_sx(&path[..1]), s(id), b(par)]), ret)
                 }
                 2 => {
-                    let n = rng.range(-1, 4) as isize;
-                    let ic = *rng.pick(&[None, None, Some("A")]);
+                    // mostly aimed at an existing residue: its exact identifier, its number alone, or its number with another code
+                    let existing = p
+                        .model(path[0])
+                        .and_then(|m| m.chain(path[1]))
+                        .and_then(|c| c.residue(path[2]))
+                        .map(|r| (r.serial_number(), r.insertion_code().map(|x| x.to_string())));
+                    let (n, ic_owned): (isize, Option<String>) = match existing {
+                        Some((rn, ric)) if rng.chance(7, 8) => match (ric.is_some(), rng.below(4)) {
+                            (true, 0) | (false, 0) | (false, 1) => (rn, ric),
+                            (true, 1) | (true, 2) => (rn, None),
+                            _ => (rn, Some(if ric.as_deref() == Some("A") { "B" } else { "A" }.to_string())),
+                        },
+                        _ => (rng.range(-1, 4) as isize, (*rng.pick(&[None, None, Some("A")])).map(|x: &str| x.to_string())),
+                    };
+                    let ic = ic_owned.as_deref();
                     let ret = on!(get_chain, 2, |c| b(if par { c.par_remove_residue_by_id((n, ic)) } else { c.remove_residue_by_id((n, ic)) }));
                     (call("rm_res_id", vec![path_sx(&path[..2]), z(n as i128), opt(ic, s), b(par)]), ret)
                 }
                 3 => {
-                    let nm = *rng.pick(&["ALA", "GLY", "HOH"]);
-                    let alt = *rng.pick(&[None, None, Some("A"), Some("B")]);
+                    // mostly aimed at an existing conformer: its exact identifier, its name alone, or its name with another location
+                    let existing = p
+                        .model(path[0])
+                        .and_then(|m| m.chain(path[1]))
+                        .and_then(|c| c.residue(path[2]))
+                        .and_then(|r| r.conformer(path[3]))
+                        .map(|c| (c.name().to_string(), c.alternative_location().map(|x| x.to_string())));
+                    let (nm_owned, alt_owned): (String, Option<String>) = match existing {
+                        Some((cn, ca)) if rng.chance(7, 8) => match (ca.is_some(), rng.below(4)) {
+                            (true, 0) | (false, 0) | (false, 1) => (cn, ca),
+                            (true, 1) | (true, 2) => (cn, None),
+                            _ => (cn, Some(if ca.as_deref() == Some("A") { "B" } else { "A" }.to_string())),
+                        },
+                        _ => ((*rng.pick(&["ALA", "GLY", "HOH"])).to_string(), (*rng.pick(&[None, None, Some("A"), Some("B")])).map(|x: &str| x.to_string())),
+                    };
+                    let nm = nm_owned.as_str();
+                    let alt = alt_owned.as_deref();
                     let ret = on!(get_residue, 3, |r| b(if par { r.par_remove_conformer_by_id((nm, alt)) } else { r.remove_conformer_by_id((nm, alt)) }));
                     (call("rm_conf_id", vec![path_sx(&path[..3]), s(nm), opt(alt, s), b(par)]), ret)
                 }
